@@ -34,6 +34,7 @@ from math import ceil
 import os
 import re
 from subprocess import PIPE, Popen
+from shlex import quote
 
 from maestrowf.abstracts.interfaces import SchedulerScriptAdapter
 from maestrowf.abstracts.enums import CancelCode, JobStatusCode, State, \
@@ -277,7 +278,9 @@ class LSFScriptAdapter(SchedulerScriptAdapter):
                   identiifer.
         """
         args = ["bsub"]
-        args += ["-cwd", cwd, "<", path]
+        # The command line is run by a shell and workspace paths may contain
+        # blanks, parentheses or other shell-special characters.
+        args += ["-cwd", quote(cwd), "<", quote(path)]
         cmd = " ".join(args)
         LOGGER.debug("cwd = %s", cwd)
         LOGGER.debug("Command to execute: %s", cmd)
